@@ -102,6 +102,7 @@ fn main() {
         "evaluations": evals, "distinct_nontrivial": distinct.len(), "samples": samples, "dist": dist,
         "traces_validated_against_impl": traces, "model_calls": calls,
         "disagreements": disagreements, "violations": violations, "notes": notes,
+        "debug_assertions": cfg!(debug_assertions),
         "wall_s": t0.elapsed().as_secs_f64(),
     });
     let text = serde_json::to_string_pretty(&res).unwrap();
